@@ -20,3 +20,13 @@ PROPS['C13'] = dict(
     assumptions=['Go map/slice semantics as read in the model'],
     explanation='theorems over all histories of the prefix table model; model tied to iri.PrefixManager by running both on the same histories',
 )
+
+HOOK_COMMITS = []
+NOT_YET = {}
+
+PROPS['C13'].update(
+    level_text='Proof: invariant, refinement to a last-write-wins map, longest-match and expand-back theorems for the prefix table over all histories, '
+               'kernel-checked; the model is run against iri.PrefixManager / BaseIRI.RelativizeIRI / curie on generated histories and pairs on every run.',
+    level_note='Trusted: Coq kernel, ExtrOcamlBasic extraction + 50-line OCaml glue (cross-checked in Coq by vm_compute on a slice), Go harness; '
+               'the hand model is tied to the Go code behaviourally only.',
+)
